@@ -233,7 +233,7 @@ CHECKS = {
         "reads per analysis / analyses per thread, with its own negative control. The model is bound to the code by recorded concurrent executions: 8-32 threads, each with its own StatefulTokenizer over one "
         "Arc<JapaneseDictionary> (3 configurations with every plugin type and user dictionaries), and Python threads with own Tokenizers, one shared pre-tokenizer and one shared Tokenizer (GIL "
         "released during analysis); the hooks' dict_write/frozen events must be ordered as the model's LoadWrite/Freeze, every outcome must equal the single-threaded oracle recorded before and "
-        "after the threads, and the dictionary fingerprint must not change. Cold starts: 400 (thorough 3000) freshly loaded dictionaries per configuration (a twin without user "
+        "after the threads, and the dictionary fingerprint must not change. Cold starts: 200 (thorough 3000) freshly loaded dictionaries per configuration (a twin without user "
         "dictionaries, so loading analyses nothing) are first analysed by 8 threads at once and compared with a single-threaded run on another fresh dictionary.",
    note="The real code is explored only under the schedules the OS produced in these runs (barrier start, 16 cores, > 1M analyses per quick run); exhaustive interleaving coverage exists for the model "
         "only. A write path not marked by hook H4 that changes neither results nor accessor values is invisible. An analysis that never returns is reported by a watchdog (hang event, no action).",
